@@ -65,7 +65,11 @@ instance (a b : Key) : Decidable (a.Clash b) := by
 
 theorem exCfg_wf (order : List Nat) (ho : order = [0, 1] ∨ order = [1, 0]) :
     GroupWellFormed exCfg exArgMember exGlobMember order := by
-  refine ⟨rfl, ?_, by decide, rfl, rfl, ?_, ?_, ?_, ?_, ?_⟩
+  refine ⟨rfl, ?_, by decide, rfl, rfl, ?_, ?_, ?_, ?_, ?_, ?_⟩
+  rotate_left 6
+  · intro g hg
+    simp only [exCfg, List.mem_cons, List.not_mem_nil, or_false] at hg; subst hg
+    exact ⟨fun h => (by cases h), fun h => (by cases h)⟩
   · unfold Disjoint; decide
   · rcases ho with rfl | rfl <;> decide
   · rcases ho with rfl | rfl <;> decide
@@ -108,6 +112,20 @@ theorem exCfg_wf (order : List Nat) (ho : order = [0, 1] ∨ order = [1, 0]) :
       first
         | (exfalso; exact hne rfl)
         | decide
+
+/-- member 0: `-p`, `-b` (int) with the value constraint differ(p;b); member 1: the flag `-q` -/
+def exCfgV : Cfg :=
+  { args := [{ key := ⟨some 'p', []⟩, kind := .int, vmode := .required, card := .unlimited },
+             { key := ⟨some 'b', []⟩, kind := .int, vmode := .required, card := .unlimited },
+             { key := ⟨some 'q', []⟩, kind := .flag, vmode := .none, card := .unlimited }],
+    globals := [{ kind := .differ, keys := [⟨some 'p', []⟩, ⟨some 'b', []⟩] }],
+    abbr := false }
+
+def exInitsV : List DVal := [.int 0, .int 0, .flag false]
+/-- `-p 3 -q -b 3` -/
+def exArgvVSame : List Word := ["prog".toList, "-p".toList, "3".toList, "-q".toList, "-b".toList, "3".toList]
+/-- `-p 3 -q -b 4` -/
+def exArgvVDiff : List Word := ["prog".toList, "-p".toList, "3".toList, "-q".toList, "-b".toList, "4".toList]
 
 theorem exArgv_plain : ArgvPlain exArgvOk ∧ ArgvPlain exArgvRequires ∧ ArgvPlain exArgvStale := by
   unfold ArgvPlain; decide
